@@ -246,6 +246,18 @@ func Scenarios() []Scenario {
 				evalBody(`[e.SumC({"a": 1}), e.JoinC([3, 4, 5]), e.JoinN([6])]`, risor.WithGlobal("e", &StructE2{})),
 			}
 		}},
+		{Name: "threads of one evaluation call functions while the main thread calls nested functions for the first time", Make: func() []Body {
+			// the clones a VM makes for its threads share nothing writable with it: the first call of a nested
+			// function makes the VM load its code
+			src := `func mk(i) { return func() { return func() { return i } } }
+work := func() { k := func(x) { return x + 1 }; t := 0; for j := range 4 { t = k(t) }; return t }
+w1 := spawn(work)
+w2 := spawn(work)
+acc := 0
+for i := range 3 { acc += mk(i)()() }
+[acc, w1.wait(), w2.wait()]`
+			return []Body{evalBody(src, risor.WithConcurrency())}
+		}},
 		{Name: "one evaluation edits the attribute map of a Go type, another reads it", Make: func() []Body {
 			// reflection data handed to scripts as ordinary (mutable) containers must not be shared between VMs
 			return []Body{
